@@ -182,6 +182,64 @@ def repro_case(args):
         shutil.rmtree(d2, ignore_errors=True)
 
 
+def two_process_case(args):
+    """a lineage that spans two executions of the workflow program (prepare, then analyse -- two operating-system processes
+    started one right after the other): every task of both runs is listed exactly once"""
+    import time
+    seed, i = args
+    rng = random.Random(seed * 353868019 + i)
+    sp1 = t3.Spec(maxtasks=rng.randint(1, 3))
+    sp1.files["raw.txt"] = "raw\n"
+    s = sp1.src("src", ["raw.txt"])
+    up = (s, "out")
+    n1 = rng.randint(1, 3)
+    for k in range(n1):
+        up = (sp1.proc(t3.Proc("prep%d" % k, kind="cattok", ins=[("a", [up])], outs=[("o", "{i:a}.prep%d" % k)])), "o")
+    inter = "raw.txt" + "".join(".prep%d" % k for k in range(n1))
+    sp2 = t3.Spec(maxtasks=rng.randint(1, 3))
+    s2 = sp2.src("src2", [inter])
+    up = (s2, "out")
+    n2 = rng.randint(1, 3)
+    for k in range(n2):
+        up = (sp2.proc(t3.Proc("ana%d" % k, kind="cattok", ins=[("a", [up])], outs=[("o", "{i:a}.ana%d" % k)])), "o")
+    target = inter + "".join(".ana%d" % k for k in range(n2))
+    sc = t3.Scratch()
+    d2 = tempfile.mkdtemp(prefix="vc20t_", dir=t3.SCRATCH_PARENT)
+    try:
+        sc.plant(sp1.files)
+        # start both programs early in one wall-clock second
+        while time.time() % 1.0 > 0.25:
+            time.sleep(0.01)
+        r1 = t3.run_impl(sc, sp1)
+        r2 = t3.run_impl(sc, sp2)
+        problems = []
+        if r1["rc"] != 0 or r2["rc"] != 0:
+            problems.append(("unexpected-failure", "rc %s / %s: %s" % (r1["rc"], r2["rc"], (r1["stderr"] + r2["stderr"])[-200:])))
+        else:
+            audit = os.path.join(sc.work, target + ".audit.json")
+            want = sorted(["prep%d" % k for k in range(n1)] + ["ana%d" % k for k in range(n2)])
+            for fmt, ext in (("html", "html"), ("tex", "tex"), ("bash", "sh")):
+                outp = os.path.join(d2, "rep." + ext)
+                r = subprocess.run([CLI, "audit2" + fmt, audit, outp], capture_output=True, text=True, timeout=60)
+                if r.returncode != 0 or not os.path.exists(outp):
+                    problems.append(("cli-fails", "audit2%s exit %s %s" % (fmt, r.returncode, r.stderr[-200:])))
+                    continue
+                text = open(outp).read()
+                if fmt == "html":
+                    names = [m.group(1) for m in re.finditer(r'<strong>(.*?)</strong> / <a name="(.*?)"', text)]
+                elif fmt == "tex":
+                    names = [m.group(2).replace("\\_", "_") for m in re.finditer(r'ID: & (\S+) \\\\\nProcess: & (.*?) \\\\', text)]
+                else:
+                    names = [m.group(1) for m in re.finditer(r"proc=\$\(printf '%-32s' \"(.*?)\"\)", text)]
+                got = sorted(x for x in names if x.startswith(("prep", "ana")))
+                if got != want:
+                    problems.append(("listing-lossy", "audit2%s of a lineage spanning two program runs lists the tasks %s, the lineage has %s" % (fmt, got, want)))
+        return {"spec": sp1.text() + "---second program---\n" + sp2.text(), "problems": problems[:3], "ntasks": n1 + n2, "ties": 0, "kind": "two-processes", "rc": 0, "stderr": "", "yield": None, "bufsize": None, "wall": 0}
+    finally:
+        sc.close()
+        shutil.rmtree(d2, ignore_errors=True)
+
+
 def run(rep, tier, seed):
     proved = vlib.prove(rep, MODULE, THEOREMS)
     ok, msg = vlib.build_ocaml()
@@ -190,6 +248,7 @@ def run(rep, tier, seed):
     n = 120 if tier == "quick" else 2500
     results = t3.run_many(tree_case, [(seed, i) for i in range(n)])
     results += [r for r in t3.run_many(repro_case, [(seed, i) for i in range(16 if tier == "quick" else 300)]) if r]
+    results += t3.run_many(two_process_case, [(seed, i) for i in range(8 if tier == "quick" else 100)], workers=4)
     t3.report_t3(rep, MODULE, proved, results, "T2 through the scipipe binary")
     rep.cov["evaluations"] = len(results)
     rep.cov["distinct_nontrivial"] = len({r["spec"] for r in results if r["ntasks"] >= 3})
